@@ -86,7 +86,15 @@ func runPathLock(rep *Report) {
 					return nil, k
 				}
 				return x.f, "ok"
-			case <-time.After(3 * time.Second):
+			case <-time.After(30 * time.Second):
+				// (real files, real fsyncs: an Open that runs the max-size transactions was seen to take more
+				// than 3 s on a saturated machine, which is slowness, not blocking; 30 s as everywhere else.)
+				// If it still returns later, close the file so that the path does not stay locked.
+				go func() {
+					if x := <-ch; x.f != nil {
+						x.f.Close()
+					}
+				}()
 				return nil, "blocked"
 			}
 		}
@@ -208,7 +216,12 @@ func runPathLock(rep *Report) {
 						// the waiter keeps the file open: the lock was handed over, later opens must fail
 						held = w.f
 					}
-				case <-time.After(3 * time.Second):
+				case <-time.After(30 * time.Second):
+					go func() { // a late return must not leave the path locked
+						if w := <-done; w.f != nil {
+							w.f.Close()
+						}
+					}()
 					fail(i, "waitlock-stuck", "waiting Open did not return after the holder closed")
 					emit("pathop close => ok")
 				}
